@@ -4,7 +4,7 @@ import z3
 
 from .types import Ty, INT, REAL, BOOL, STR, NONE, ANY, FN, parse_type, base_sort
 from .state import (V, VFunc, VBound, VClass, VModule, Exc, Unsupported, fresh_name,
-                    mk_int, mk_bool, NONE_V, coerce)
+                    mk_int, mk_bool, NONE_V, coerce, to_terms, from_terms)
 from .expr import Ctx, is_num, num_term, simp_bool
 
 I = z3.IntSort()
@@ -85,6 +85,10 @@ class CallMixin(object):
     if self.is_dropped_call(node, cx):
       self.dropped.add('.'.join(self._chain(f)))
       yield st, NONE_V
+      return
+    if isinstance(f, ast.Name) and f.id == 'next' and len(node.args) == 2 and isinstance(node.args[0], ast.GeneratorExp) and not node.keywords:
+      for o in self.ev_first_match(node, st, cx):
+        yield o
       return
     # super(C, self).m(...)
     if (isinstance(f, ast.Attribute) and isinstance(f.value, ast.Call)
@@ -260,6 +264,61 @@ class CallMixin(object):
       return self.call_opaque(st, cx, callee, args, kwargs, node)
     raise Unsupported('call of %r (line %s)' % (callee, getattr(node, 'lineno', '?')))
 
+  def ev_first_match(self, node, st, cx):
+    """next((elt for x in L if cond), default)  /  next((elt for i, x in enumerate(L) if cond), default):
+    the element expression at the first position of L whose item satisfies cond, else the default."""
+    ge = node.args[0]
+    gen = ge.generators[0] if len(ge.generators) == 1 else None
+    if gen is None or gen.is_async or len(gen.ifs) > 1:
+      raise Unsupported('generator expression shape (line %d)' % node.lineno)
+    it, tgt = gen.iter, gen.target
+    ivar = xvar = None
+    if (isinstance(it, ast.Call) and isinstance(it.func, ast.Name) and it.func.id == 'enumerate' and len(it.args) == 1
+        and isinstance(tgt, ast.Tuple) and len(tgt.elts) == 2 and all(isinstance(e, ast.Name) for e in tgt.elts)):
+      ivar, xvar, it = tgt.elts[0].id, tgt.elts[1].id, it.args[0]
+    elif isinstance(tgt, ast.Name):
+      xvar = tgt.id
+    else:
+      raise Unsupported('generator expression target (line %d)' % node.lineno)
+    for st1, vals in self.ev_seq([it, node.args[1]], st, cx):
+      if isinstance(vals, Exc):
+        yield st1, vals
+        continue
+      src, dflt = vals
+      if not (isinstance(src, V) and src.ty.k == 'list'):
+        raise Unsupported('first-match over %r (line %d)' % (src, node.lineno))
+      n = self.list_len(st1, src)
+      j = z3.Int(fresh_name('fm'))
+      fid = fresh_name('ge')
+      fr = {xvar: self.list_get(st1, src, j)}
+      if ivar:
+        fr[ivar] = V(INT, j)
+      st1.frames[fid] = fr
+      ccx = Ctx(cx.mod, cx.cls, [fid] + list(cx.chain), cx.spec, cx.qual)
+      self.spec_depth += 1      # element / filter expressions must be pure
+      try:
+        elt = self.ev1(ge.elt, st1, ccx)
+        cond = self.truth(st1, self.ev1(gen.ifs[0], st1, ccx)) if gen.ifs else z3.BoolVal(True)
+      finally:
+        self.spec_depth -= 1
+        st1.frames.pop(fid, None)
+      if not isinstance(elt, V) or elt.ty.k == 'tuple' or elt.py is not None and elt.ty.k == 'bytes':
+        raise Unsupported('first-match element (line %d)' % node.lineno)
+      sub = lambda t, v: z3.substitute(t, (j, v))
+      q = z3.Int(fresh_name('q'))
+      # found at position i: cond holds there and nowhere before
+      s_f = st1.fork()
+      i = z3.Int(fresh_name('first'))
+      s_f.assume(z3.And(0 <= i, i < n, sub(cond, i)))
+      s_f.assume(z3.ForAll([q], z3.Implies(z3.And(0 <= q, q < i), z3.Not(sub(cond, q)))))
+      if self.feasible(s_f):
+        terms = [sub(t, i) for t in to_terms(elt, elt.ty)]
+        yield s_f, from_terms(terms, elt.ty)
+      s_n = st1.fork()
+      s_n.assume(z3.ForAll([q], z3.Implies(z3.And(0 <= q, q < n), z3.Not(sub(cond, q)))))
+      if self.feasible(s_n):
+        yield s_n, dflt
+
   def call_dispatch(self, st, cx, callee, cands, args, kwargs, node):
     """A call through a stored callable that the sidecar says is one of the listed bound methods: the
     callee value must provably be one of them, and each is then called through its own contract."""
@@ -324,6 +383,9 @@ class CallMixin(object):
   # ------------------------------------------------------------------ repository functions
   def spec_for(self, fn, args):
     """Contract for a repo function: by owner-qualified name, or by the receiver's class."""
+    u = self.reg.functions.get(self.unit)
+    if u is not None and u.aspect and (fn.qual + '@' + u.aspect) in self.reg.functions:
+      return self.reg.functions[fn.qual + '@' + u.aspect]     # callees are taken with the unit's own aspect
     if fn.qual in self.reg.functions:
       return self.reg.functions[fn.qual]
     return None
